@@ -157,6 +157,120 @@ func main() {
 		}
 	}
 
+	// 1b. escapes: the address of a package-level variable (or a slice / map / pointer loaded from one) that a
+	// function returns, stores somewhere, boxes into an interface, captures, or appends / copies into — shared
+	// mutable memory handed to the caller ("every empty buffer is this one object", "every converted bool is this
+	// one slice"). Reads (loads, comparisons, calls of foreign read-only functions such as bytes.Equal) are not.
+	escapes := map[*ssa.Function]map[string]bool{}
+	noteEsc := func(f *ssa.Function, g *ssa.Global, how string) {
+		if g == nil || g.Pkg == nil || !mine[g.Pkg] {
+			return
+		}
+		if escapes[f] == nil {
+			escapes[f] = map[string]bool{}
+		}
+		escapes[f][g.Pkg.Pkg.Name()+"."+g.Name()+"|"+how] = true
+	}
+	isRefType := func(t types.Type) bool {
+		switch t.Underlying().(type) {
+		case *types.Slice, *types.Map, *types.Chan, *types.Pointer:
+			return true
+		}
+		return false
+	}
+	for f := range allFns {
+		if f.Pkg == nil || !mine[f.Pkg] {
+			continue
+		}
+		// shared: value -> the package-level variable whose memory it designates
+		shared := map[ssa.Value]*ssa.Global{}
+		var work []ssa.Value
+		add := func(v ssa.Value, g *ssa.Global) {
+			if _, ok := shared[v]; !ok && g != nil && g.Pkg != nil && mine[g.Pkg] {
+				shared[v] = g
+				work = append(work, v)
+			}
+		}
+		// uses by operand scan (package-level variables have no referrer lists in go/ssa)
+		uses := map[ssa.Value][]ssa.Instruction{}
+		for _, b := range f.Blocks {
+			for _, in := range b.Instrs {
+				for _, op := range in.Operands(nil) {
+					if *op == nil {
+						continue
+					}
+					uses[*op] = append(uses[*op], in)
+					if g, ok := (*op).(*ssa.Global); ok {
+						add(g, g)
+					}
+				}
+			}
+		}
+		for _, prm := range f.Params {
+			if g := paramGlobals[prm]; g != nil {
+				add(prm, g)
+			}
+		}
+		for len(work) > 0 {
+			v := work[len(work)-1]
+			work = work[:len(work)-1]
+			g := shared[v]
+			for _, in := range uses[v] {
+				switch x := in.(type) {
+				case *ssa.UnOp: // load: the loaded value designates shared memory only if it is itself a reference
+					if x.X == v && isRefType(x.Type()) {
+						if _, isIface := x.Type().Underlying().(*types.Interface); !isIface {
+							add(x, g)
+						}
+					}
+				case *ssa.FieldAddr:
+					if x.X == v {
+						add(x, g)
+					}
+				case *ssa.IndexAddr:
+					if x.X == v {
+						add(x, g)
+					}
+				case *ssa.Slice:
+					if x.X == v {
+						add(x, g)
+					}
+				case *ssa.Phi:
+					add(x, g)
+				case *ssa.ChangeType:
+					add(x, g)
+				case *ssa.Convert:
+					if isRefType(x.Type()) {
+						add(x, g)
+					}
+				case *ssa.Return:
+					noteEsc(f, g, "returned")
+				case *ssa.Store:
+					if x.Val == v {
+						noteEsc(f, g, "stored")
+					}
+				case *ssa.MapUpdate:
+					if x.Value == v || x.Key == v {
+						noteEsc(f, g, "stored in a map")
+					}
+				case *ssa.MakeInterface:
+					noteEsc(f, g, "boxed")
+				case *ssa.MakeClosure:
+					noteEsc(f, g, "captured")
+				case *ssa.Send:
+					if x.X == v {
+						noteEsc(f, g, "sent")
+					}
+				case ssa.CallInstruction:
+					c := x.Common()
+					if bi, ok := c.Value.(*ssa.Builtin); ok && len(c.Args) > 0 && c.Args[0] == v && (bi.Name() == "append" || bi.Name() == "copy") {
+						noteEsc(f, g, "destination of "+bi.Name())
+					}
+				}
+			}
+		}
+	}
+
 	// 2. runtime entry points
 	var entries []*ssa.Function
 	isEntryName := func(n string) bool {
@@ -232,12 +346,24 @@ func main() {
 			}
 		}
 	}
+	var escaping []string
+	for f, gs := range escapes {
+		for gh := range gs {
+			if via, ok := reach[f]; ok {
+				parts := strings.SplitN(gh, "|", 2)
+				escaping = append(escaping, fmt.Sprintf("(%s, %s, %s, %s)", strconv.Quote(via), strconv.Quote(f.String()), strconv.Quote(parts[0]), strconv.Quote(parts[1])))
+			}
+		}
+	}
+	sort.Strings(escaping)
 	sort.Strings(runtime)
 	sort.Strings(initOnly)
 	var sb strings.Builder
 	sb.WriteString("-- regenerated on every run (harness/cmd/globals, go/ssa): writers of package-level state\nnamespace Inspector\n")
 	sb.WriteString("/-- (entry point, function, variable): stores to package-level variables reachable from a runtime entry point -/\n")
 	sb.WriteString("def runtimeGlobalWrites : List (String × String × String) := [" + strings.Join(runtime, ",\n  ") + "]\n")
+	sb.WriteString("/-- (entry point, function, variable, how): memory of a package-level variable handed out by a function reachable from a runtime entry point -/\n")
+	sb.WriteString("def runtimeGlobalEscapes : List (String × String × String × String) := [" + strings.Join(escaping, ",\n  ") + "]\n")
 	sb.WriteString("/-- (function, variable): writers that no runtime entry point reaches (init, Register*, generation time) -/\n")
 	sb.WriteString("def initTimeGlobalWrites : List (String × String) := [\n  " + strings.Join(initOnly, ",\n  ") + "]\n")
 	sb.WriteString("def runtimeEntryPoints : Nat := " + strconv.Itoa(len(entries)) + "\n")
